@@ -137,6 +137,19 @@ fn wrapper_error(fty: FrameType) -> impl FnOnce(ExceedLimitError) -> QuicError {
     move |e| QuicError::new(ErrorKind::StreamLimit, fty.into(), e.to_string())
 }
 
+/// A STREAM, STOP_SENDING or MAX_STREAM_DATA frame for a locally initiated stream that has not yet
+/// been created is a connection error of type STREAM_STATE_ERROR (RFC 9000 §19.8, §19.5, §19.10).
+fn check_local_created(sid: StreamId, opened: u64, fty: FrameType) -> Result<(), QuicError> {
+    if sid.id() >= opened {
+        return Err(QuicError::new(
+            ErrorKind::StreamState,
+            fty.into(),
+            format!("local {sid} has not been created yet"),
+        ));
+    }
+    Ok(())
+}
+
 impl<TX> DataStreams<TX>
 where
     TX: SendFrame<StreamCtlFrame> + Clone + Send + 'static,
@@ -421,6 +434,8 @@ where
                     format!("local {sid} cannot receive STREAM_FRAME"),
                 ));
             }
+            let opened = self.stream_ids.local.opened_streams(sid.dir());
+            check_local_created(sid, opened, stream_frame.frame_type())?;
         }
 
         if let Ok(set) = self.input.streams().as_mut()
@@ -494,6 +509,9 @@ where
                     }
                     self.try_accept_sid(sid)
                         .map_err(wrapper_error(stop_sending.frame_type()))?;
+                } else {
+                    let opened = self.stream_ids.local.opened_streams(sid.dir());
+                    check_local_created(sid, opened, stop_sending.frame_type())?;
                 }
 
                 if let Some(final_size) = self
@@ -523,6 +541,9 @@ where
                     }
                     self.try_accept_sid(sid)
                         .map_err(wrapper_error(max_stream_data.frame_type()))?;
+                } else {
+                    let opened = self.stream_ids.local.opened_streams(sid.dir());
+                    check_local_created(sid, opened, max_stream_data.frame_type())?;
                 }
                 if let Some((outgoing, _s)) = self
                     .output
